@@ -882,6 +882,11 @@ def c06(tier, seed):
     for ev, exp in waits:
         out.append({'via': 'hook', 'script': ['insert 20 20 0', 'insert 20 21 0', 'events ' + ' '.join(ev), 'wait_fg 20 20 21'], 'expect': [exp],
                     'area': 'wait:returns-when-every-member-settled', 'id': 'events ' + ' '.join(ev)})
+    # the last process of the pipeline is the last one of the list, not the one with the highest pid (process ids are not monotonic)
+    for ev, exp in ((['25,0,3', '21,0,5'], 'wait_fg status=5 pending=0'), (['21,0,5', '25,0,3'], 'wait_fg status=5 pending=0'), (['31,0,0', '25,0,2', '21,1,15'], 'wait_fg status=143 pending=0')):
+        pids = ['31', '25', '21'] if len(ev) == 3 else ['25', '21']
+        out.append({'via': 'hook', 'script': ['insert 20 %s 0' % p_ for p_ in pids] + ['events ' + ' '.join(ev), 'wait_fg 20 ' + ' '.join(pids)], 'expect': [exp],
+                    'area': 'wait:status-of-the-last-process-not-of-the-highest-pid', 'id': 'pids ' + ' '.join(pids) + ' events ' + ' '.join(ev)})
     return out
 
 
